@@ -43,6 +43,10 @@ func TestWorker(t *testing.T) {
 	}
 	seed, _ := strconv.ParseUint(os.Getenv("VERIF_SEED"), 10, 64)
 	idx := envInt("VERIF_RUN", 0)
+	if batchProps[strings.SplitN(prop, "/", 2)[0]] {
+		runBatch(t, prop, scen, seed, idx, envInt("VERIF_COUNT", 1))
+		return
+	}
 	var tape *verifsim.Tape
 	if f := os.Getenv("VERIF_REPLAY"); f != "" {
 		b, err := os.ReadFile(f)
@@ -88,4 +92,49 @@ func TestWorker(t *testing.T) {
 		// leaked goroutines die with the process).
 		os.Exit(0)
 	})
+}
+
+// runBatch executes count run indices in this process, one result line each.
+// The index being executed is on disk before it starts, so that the driver can
+// attribute a process death.
+func runBatch(t *testing.T, prop string, scen Scenario, seed uint64, first, count int) {
+	out := os.Getenv("VERIF_OUT")
+	sites := LoadSites(os.Getenv("VERIF_SITES"))
+	opt := map[string]string{}
+	for _, kv := range strings.Split(os.Getenv("VERIF_OPT"), ",") {
+		if p := strings.SplitN(kv, "=", 2); len(p) == 2 {
+			opt[p[0]] = p[1]
+		}
+	}
+	f, err := os.OpenFile(out, os.O_APPEND|os.O_CREATE|os.O_WRONLY, 0o644)
+	if err != nil {
+		fmt.Fprintf(os.Stderr, "HARNESS-TROUBLE: %v\n", err)
+		os.Exit(3)
+	}
+	for idx := first; idx < first+count; idx++ {
+		var tape *verifsim.Tape
+		if rf := os.Getenv("VERIF_REPLAY"); rf != "" {
+			b, _ := os.ReadFile(rf)
+			var in replayInput
+			json.Unmarshal(b, &in)
+			tape = verifsim.NewReplayTape(in.Plan, in.Sched)
+		} else {
+			tape = verifsim.NewSearchTape(verifsim.Mix(seed, verifsim.HashString(strings.SplitN(prop, "/", 2)[0]), uint64(idx)))
+		}
+		res := &RunResult{Prop: prop, Run: idx, Seed: seed}
+		r := &Run{T: t, Prop: prop, Index: idx, Tape: tape, Res: res, Trace: os.Getenv("VERIF_TRACE") != "", Sites: sites, Opt: opt}
+		if opt["tapeonly"] != "" {
+			res.Plan = tape.RawPrefix(verifsim.StreamPlan, 3000)
+			res.Sched = tape.RawPrefix(verifsim.StreamSched, 100)
+			res.Verdict = "tape"
+		} else {
+			os.WriteFile(out+".current", []byte(strconv.Itoa(idx)), 0o644)
+			scen(r)
+			r.finish()
+		}
+		b, _ := json.Marshal(res)
+		f.Write(append(b, '\n'))
+	}
+	f.Close()
+	os.Exit(0)
 }
